@@ -9,7 +9,7 @@
 (* property does not care) or "bad:<clause>" (the property is violated).    *)
 (* One line <<"V", id, verdict>> is printed per event.                      *)
 (***************************************************************************)
-EXTENDS PMStep
+EXTENDS PMStep, PMDiff
 
 Events == Input.events
 (* documents and slices are stored once and referenced by index (e.di, e.si) *)
@@ -111,6 +111,17 @@ VInvert(e) == LET d == Docs[e.di] IN
   ELSE IF e.inv # InvertStep(e.step, d, e.ra) THEN "drift:InvertStep"
   ELSE "ok"
 
+(* C20: diffing two fragments *)
+VDiff(e) == LET a == Docs[e.di]  b == Docs[e.di2] IN
+  IF ~(WF(a) /\ WF(b) /\ Canon(a) /\ Canon(b)) THEN "skip:pre"
+  ELSE IF e.start.kind = "timeout" THEN "bad:DiffStartDoesNotTerminate"
+  ELSE IF e.end.kind = "timeout" THEN "bad:DiffEndDoesNotTerminate"
+  ELSE IF e.start.kind = "raise" THEN "bad:DiffStartRaised"
+  ELSE IF e.end.kind = "raise" THEN "bad:DiffEndRaised"
+  ELSE IF e.start.pos # DiffStart(a, b) THEN "bad:DiffStart"
+  ELSE IF <<e.end.a, e.end.b>> # DiffEnd(a, b) THEN "bad:DiffEnd"
+  ELSE "ok"
+
 ----------------------------------------------------------------------------
 (* C07: validity predicates.  A node is given as (type name, content tokens). *)
 NodeKids(e) == LET d == Docs[e.di] IN Kids(d, MatchArr(d), 1, Len(d))
@@ -163,6 +174,7 @@ Verdict(e) ==
     [] e.ev = "Apply"   -> VApply(e)
     [] e.ev = "StepMap" -> VStepMap(e)
     [] e.ev = "Invert" -> VInvert(e)
+    [] e.ev = "Diff" -> VDiff(e)
     [] e.ev = "Check" -> VCheck(e)
     [] e.ev = "ValidContent" -> VValidContent(e)
     [] e.ev = "CreateChecked" -> VCreateChecked(e)
